@@ -19,7 +19,7 @@ package template
 // rendered before the head (the head lists the imports the body asked for), the text handed to the formatter is head
 // followed by body, the result is the formatter's; a failing template or formatter yields an error.
 //@ func (Builder).Build
-//@   property C12 C10 C04 C02 C14
+//@   property C12 C10 C04 C02 C14 C03 C05 C13 C15
 //@   requires [wired] b.formatter != nil
 //@   ensures [body_is_rendered_from_the_given_output] exists k int :: old(tlen()) <= k && k < tlen() && evIs(k, "internal/pkg/template:(tpl).exec")
 //@        && evArg(k, tpl).name == "body.go.tpl" && evArg(k, tpl).data == boxed(data(b.importsProvider, o, b.buildInfo, b.stub))
@@ -37,7 +37,7 @@ package template
 // the import block to the packages the file uses, in normal and in stub mode); a source that does not parse is an error
 // and yields no text.
 //@ func (CodeFormatter).Format
-//@   property C10 C14 C12
+//@   property C10 C14 C12 C02 C03 C04 C05 C13 C15
 //@   ensures [syntax_error_yields_no_text] format.Source(toBytes(c)).1 != nil ==> result.0 == "" && result.1 != nil
 //@   ensures [formatted_then_unused_imports_pruned] format.Source(toBytes(c)).1 == nil ==>
 //@        result.0 == fromBytes(imports.Process("", reEmptyNewLines.ReplaceAll(format.Source(toBytes(c)).0, toBytes("\n\t")), nil).0)
@@ -45,7 +45,7 @@ package template
 
 // ---- constructors
 //@ func NewBuilder
-//@   property C10 C14
+//@   property C10 C14 C02 C03 C04 C05 C13 C15
 //@   ensures [fields_as_given] result != nil && result.aliaser == a && result.importsProvider == ip && result.formatter == cf && result.buildInfo == buildInfo && result.stub == stub
 //@ func NewCodeFormatter
 //@   property C10
